@@ -2006,15 +2006,46 @@ impl<'a> CompileState<'a> {
                     identifier, fields, ..
                 } = struct_ast.as_ref();
 
+                let mut value_fields = BTreeMap::new();
+                for (field_name, expr) in fields {
+                    // The field must exist in the definition and the value must have its type.
+                    let Some(field_def) = struct_def
+                        .iter()
+                        .find(|f| f.identifier.inner == field_name.inner)
+                    else {
+                        let note = format!(
+                            "field `{}` not found in `Struct {}`",
+                            field_name.inner, identifier
+                        );
+                        return Err(self.err(NotDefined(note, field_name.span)));
+                    };
+                    let value = self.expression_value(expr)?;
+                    let value_type = value.vtype(expr.span);
+                    if !value_type.fits_type(&field_def.field_type) {
+                        return Err(self.err(InvalidType::new(
+                            field_def.field_type.to_string(),
+                            Some(field_def.span()),
+                            value_type.to_string(),
+                            expr.span,
+                        )));
+                    }
+                    value_fields.insert(field_name.inner.clone(), value);
+                }
+                // Every field of the definition must be given.
+                if let Some(missing) = struct_def
+                    .iter()
+                    .find(|f| !value_fields.contains_key(&f.identifier.inner))
+                {
+                    let note = format!(
+                        "field `{}` of `Struct {}` is missing in the struct literal",
+                        missing.identifier.inner, identifier
+                    );
+                    return Err(self.err(NotDefined(note, identifier.span)));
+                }
+
                 Ok(ConstValue::Struct(ConstStruct {
                     name: identifier.inner.clone(),
-                    fields: {
-                        let mut value_fields = BTreeMap::new();
-                        for (value, expr) in fields {
-                            value_fields.insert(value.inner.clone(), self.expression_value(expr)?);
-                        }
-                        value_fields
-                    },
+                    fields: value_fields,
                 }))
             }
             ExprKind::EnumReference(e) => {
